@@ -133,6 +133,16 @@ Fixpoint parse_names (k : nat) (ts : list str) : option (list fname * list str) 
 
 Definition chr (c : N) (s : str) : bool := str_eqb s [c].
 
+Definition parse_torn (ts : list str) : option (list str) :=
+  match ts with
+  | nt :: r => match hex_to_N nt with
+               | Some nt => let k := (3 * N.to_nat nt)%nat in
+                            if Nat.leb k (length r) then Some (skipn k r) else None
+               | None => None
+               end
+  | [] => None
+  end.
+
 (* run the pending background rotation, if any (awaitRotationLocked) *)
 Definition settle (st : rst) : rst :=
   match r_wal st with
@@ -346,7 +356,12 @@ Fixpoint run_ops (fuel : nat) (st : rst) (ts : list str) (acc : list str) : list
                         match hex_to_N nb with
                         | Some nb =>
                             match parse_names (N.to_nat nb) r2 with
-                            | Some (kb, r3) =>
+                            | Some (kb, r3a) =>
+                              (* torn batches: <nt> (<base> <id> <chunk mask>)*; a torn batch is
+                                 recovered as absent (segment-level law), so the model only skips them *)
+                              match parse_torn r3a with
+                              | None => bad
+                              | Some r3 =>
                                 let all := rev_append (e_acts (r_env st)) [] in
                                 let pre := firstn (N.to_nat k) all in
                                 let since := skipn (r_base_n st) pre in
@@ -356,6 +371,7 @@ Fixpoint run_ops (fuel : nat) (st : rst) (ts : list str) (acc : list str) : list
                                                  r_env := {| e_acts := rev_append pre []; e_disk := d;
                                                              e_fault := None; e_m := zero_metrics |};
                                                  r_mark := length pre; r_base := d; r_base_n := length pre |} r3 acc
+                              end
                             | None => bad
                             end
                         | None => bad
